@@ -202,6 +202,10 @@ def _rename(node, patch_):
         if not member:
             raise Exception("Member not found: %s %s" % (node_.name, patch_))
         member.name = new_name
+        for other in node_.members:
+            # arrays counted by the renamed field keep their counter
+            if getattr(other, "bound", None) == orig_name:
+                other.bound = new_name
         return node_
 
     if len(patch_.params) == 1:
